@@ -352,7 +352,7 @@ def load(p):
 
 def strip_case(c):
     """the replayable part of a case (what `ingestfuzz --cases` needs)"""
-    return {k: c[k] for k in ("id", "stream", "class", "req", "d", "l", "f", "f_model") if k in c}
+    return {k: c[k] for k in ("id", "stream", "class", "req", "d", "l", "f", "f_model") if k in c}   # req carries fill / limit
 
 
 def write_cases(path, cases):
@@ -450,10 +450,10 @@ def run_harness(ck):
     byid = {c["id"]: c for c in cases}
     # generator invariant of the streams whose class is predicted without the limiter: a Content-Encoding overlay stays
     # within the decoded-size limit the router runs with (stream "limit" is the one that crosses it)
-    over = [c["id"] for c in cases if c["stream"] in ("struct", "generic") and c["obs"].get("limit")
-            and any(k == "Content-Encoding" and v in ("gzip", "snappy") for k, v in c["req"].get("headers", []))
-            and int(c["obs"].get("decoded_len", 0)) > int(c["obs"]["limit"])]
-    ck.obligation("generator: structured cases under a Content-Encoding stay within the decoded-size limit of the harness router", not over, "cases: %s" % over[:10])
+    over = [c["id"] for c in cases if c["stream"] in ("struct", "generic", "frame") and c["obs"].get("limit")
+            and max(int(c["obs"].get("decoded_len", 0)), 0 if any(k == "Content-Encoding" and v in ("gzip", "snappy") for k, v in c["req"].get("headers", []))
+                    else int(c["obs"].get("body_len", 0))) > int(c["obs"]["limit"])]
+    ck.obligation("generator: structured cases (plain or under a Content-Encoding) stay within the payload limit the harness router runs with", not over, "cases: %s" % over[:10])
     nstruct = sum(1 for c in cases if c["stream"] in ("struct", "generic", "limit", "frame"))
     nframe = sum(1 for c in cases if c["stream"] == "frame")
     ngeneric = sum(1 for c in cases if c["stream"] == "generic")
@@ -462,8 +462,8 @@ def run_harness(ck):
     ck.obligation("correspondence: model predict = observed outcome class on %d structured requests" % nstruct, not mism,
                   "mismatching case ids: %s" % mism[:10])
     ck.obligation("spec oracle spec_ok accepts every observation (%d structured + %d byte-level fuzz requests): answered, alive, "
-                  "census stable, later requests served, allocation within 64 MiB + 64 x max(wire size, min(decoded size, configured limit)), snappy limit respected, "
-                  "malformed structured input and compressed bodies beyond the decoded-size limit not answered 2xx" % (nstruct, nbytes),
+                  "census stable, later requests served, allocation within 64 MiB + 64 x min(max(wire size, decoded size), configured payload limit), snappy limit respected, "
+                  "malformed structured input and bodies beyond the payload limit (plain or compressed) not answered 2xx" % (nstruct, nbytes),
                   not viol, "violating case ids: %s" % viol[:10])
 
     def size(c):
